@@ -1218,6 +1218,18 @@ def run(ctx):
         ctx.require("strace_injections_fired", wfired, max(1, (len(wtasks) * 9) // 10))
         ctx.require("strace_clean_comparisons", len(wclean), 5)
 
+    # ---- one unfaulted decompression whose zero run is longer than 4 GiB (sparse path): the target must be complete
+    # before the source goes (the file is far too big for the snapshot oracle above; it is verified by size, head, tail
+    # and the extents the file system reports)
+    if os.environ.get("VERIF_ONLY_CASE") in (None, ""):
+        try:
+            import importlib
+            c18 = importlib.import_module("checks.c18")
+            if c18.sparse_probe(ctx)[0]:      # (on a file system without holes this would write 4 GiB for real)
+                c18.huge_sparse(ctx, None, xz=xz_built, B=IOBUF, key="source-lost|d_sparse_huge|clean|%s")
+        except Exception as ex:       # harness trouble, not a verdict
+            ctx.inconclusive.append("huge-sparse case: %r" % (ex,))
+
     # ---- evidence ---------------------------------------------------------------------
     total = len(tasks)
     ctx.count("fault_runs_fired", nfired)
